@@ -12,7 +12,7 @@ Theorem C19_header_pairs_checked :
   existsb (fun p => list_eqb str_eqb (fst p) [[102; 111; 114; 109; 97; 116; 70; 114; 97; 109; 101; 70; 111; 114; 109; 97; 116]]) pairs = true /\
   existsb (fun p => list_eqb str_eqb (fst p) [[102; 111; 114; 109; 97; 116; 84; 114; 97; 110; 115; 112; 111; 114; 116; 84; 114; 97; 99; 107; 70; 111; 114; 109; 97; 116]]) pairs = true /\
   existsb (fun p => list_eqb str_eqb (fst p) [[102; 111; 114; 109; 97; 116; 70; 114; 97; 109; 101; 72; 101; 97; 100; 101; 114]]) pairs = true.
-Proof. vm_compute. auto. Qed.
+Proof. exact header_pairs_checked. Qed.
 Print Assumptions C19_header_pairs_checked.
 
 (* everything a header format function emits under a literal name is read by its parse function, and conversely *)
